@@ -257,7 +257,7 @@ Proof. vm_compute. reflexivity. Qed.
 (* the program-order hypothesis on the clients is necessary: if an unsubscription could be posted
    before the subscription, the fixed loop would die as well *)
 Lemma order_hypothesis_needed :
-  option_map stat (run_unordered acu_cfg init [LUnsub 1; LPub; LPub; LPub]) = Some Dead.
+  option_map stat (run_unordered acu_cfg init [LUnsub 1; LPub; LPub; LPub; LPub]) = Some Dead.
 Proof. vm_compute. reflexivity. Qed.
 
 (* non-vacuity: a reachable state with a served subscriber, a waiting one and a leaving one *)
